@@ -210,6 +210,13 @@ class Deferred(BaseDeferred):
             except NotReadyError:
                 self.not_ready_epoch = Readiness.epoch
                 raise
+            except DeferredCycle:
+                if try_compute.depth > 0:
+                    # A speculative attempt that runs into a value being computed right now gives up just
+                    # like one that lacks a value: repeating it at every level of a long cycle of
+                    # definitions takes time exponential in the length of the cycle
+                    self.not_ready_epoch = Readiness.epoch
+                raise
             if isinstance(value, BaseDeferred) and self._is_reachable_from(value):
                 # 'a = a', 'a = a + 1', 'a = b' with 'b = a + 1': the value is still symbolic and
                 # stands for this very deferred. Chasing it would never end
